@@ -73,15 +73,15 @@ def run_gen(w, rg, emit):
             # net-zero buffered episodes on a missing file unobservable; see DESIGN §7)
             for r in w.res:
                 if not r.exists:
-                    o = [x for x in w.objs if x.rid == r.rid][0]
+                    o = [x for x in w.objs if x.rid == r.rid and x.alive][0]
                     emit({"t": "op", "hid": o.root_hid, "name": "reset", "args": [[w.fresh.int()] if r.kind == "list" else {"init": w.fresh.int()}]})
-        objs0 = [o.oid for o in w.objs if o.rid == 0]
+        objs0 = [o.oid for o in w.objs if o.rid == 0 and o.alive]
         if rg.random() < 0.5:
             k = cfg["kinds"][0]
             emit({"t": "enter", "ctx": "backend", "family": cfg["family"], "kind": k})
             n_ctx = 1
             order = None
-            members = [o.oid for o in w.objs if w.res[o.rid].kind == k]
+            members = [o.oid for o in w.objs if w.res[o.rid].kind == k and o.alive]
         else:
             oids = list(objs0)
             rg.shuffle(oids)
@@ -114,6 +114,11 @@ def run_gen(w, rg, emit):
             w.probe("common_state_two_objects")
         if any(o in objs0 and o not in wrote_any for o in seen) and any(o in objs0 for o in wrote_any):
             w.probe("flush_with_reader_first")
+        if order is None and wrote_any and rg.random() < 0.2:
+            # the writer objects go out of scope inside the backend-wide context (and the garbage collector runs): the
+            # flush at the exit must still write what they wrote, whether or not another object on the file is alive
+            for oid in sorted(wrote_any):
+                emit({"t": "drop_gc", "oid": oid})
         st = {"t": "exit_group", "n": n_ctx}
         if order:
             st["order"] = order
